@@ -914,6 +914,20 @@ def added_optional_params_env(fi: FunctionInfo, established: set[str]) -> Callab
     return env
 
 
+def unwrapped_returns(an, wrap_fi: FunctionInfo, wrappers: set[str]) -> list[ast.Return]:
+    """Returns of a decorator's inner function that hand back something else than a freshly built wrapper
+    (an instance of one of the `wrappers` classes / the result of one of the wrapper factories)."""
+    from .astutil import Deps
+
+    d = Deps(an.prog, wrap_fi)
+    bad = []
+    for r in [r for r in wrap_fi.own_nodes() if isinstance(r, ast.Return)]:
+        oo = d.origins(r.value) if r.value is not None else frozenset()
+        if not oo or not all(o.startswith("call:") and o[5:] in wrappers for o in oo):
+            bad.append(r)
+    return bad
+
+
 def constructed_attr_values(an, cls_path: str, attr: str) -> list[tuple[ast.Call, list[ast.AST]]]:
     """What `__init__` of the class stores into self.<attr> at each constructor call site of the package: the
     parameters are bound to the constant arguments / defaults of the site, branches and conditional expressions
